@@ -240,8 +240,9 @@ def generate(tier, seed):
                    "float gap": "bound values outside both the benign region and the finding regions are not explored"}
     plan.assumptions = ["valid set non-empty (property precondition)", "non-NaN float bounds", "arbitrary 1.3.2 as pinned in /repo/Cargo.lock"]
     plan.kani_flags = ["-Z", "stubbing"]
-    if tier == "quick":
-        plan.timeout_s = 150   # slowest claimed harness ~35 s; the best-effort String harnesses (all-whitespace draws) always run into the cap
+    # slowest claimed harness ~35 s; the best-effort harnesses (all-whitespace String draws; thorough: the 1000-step float mangling loop)
+    # mostly run into the cap, so the cap decides the wall time
+    plan.timeout_s = 150 if tier == "quick" else 400
     plan.pre_steps = plan.pre_steps + [strprops.model_validation_step]
     plan.assumptions = plan.assumptions + strprops.ASSUMPTIONS + ["String Arbitrary: only declarations whose target length is a constant (len_char_min == len_char_max, or not_empty + len_char_max = 1); byte streams of 4-byte words encoding ASCII characters (concrete whitespace, symbolic fillers); String::push stubbed by a one-byte ASCII model"]
     plan.bounds["strings"] = "String Arbitrary with constant target length <= 2 on ASCII word streams of <= 5 characters; symbolic target lengths and non-ASCII characters are outside the claim"
